@@ -166,3 +166,97 @@ func impliesLenAtLeast(info *types.Info, cf *cfgx.Func, fa cfgx.Fact, lenOf, len
 	}
 	return false
 }
+
+// lenFact interprets a branch fact about a length: it returns the measured expression and
+// whether the fact implies "at least one element" (nonEmpty) or "no element" (empty).
+// All spellings are understood: len(x) == 0, len(x) < 1, len(x) <= 0, 0 == len(x),
+// len(x) != 0, len(x) > 0, len(x) >= 1, x.Len() ..., and their negations.
+func lenFact(info *types.Info, fa cfgx.Fact) (lenOf ast.Expr, nonEmpty, empty bool) {
+	return lenFactR(info, fa, nil)
+}
+
+// lenFactR is lenFact with operands resolved through single-assignment locals
+// (`n := len(q); if n < 1`).
+func lenFactR(info *types.Info, fa cfgx.Fact, resolve func(ast.Expr) ast.Expr) (lenOf ast.Expr, nonEmpty, empty bool) {
+	if resolve == nil {
+		resolve = func(e ast.Expr) ast.Expr { return e }
+	}
+	e := ast.Unparen(fa.Expr)
+	truth := fa.Truth
+	for {
+		u, ok := e.(*ast.UnaryExpr)
+		if !ok || u.Op != token.NOT {
+			break
+		}
+		e = ast.Unparen(u.X)
+		truth = !truth
+	}
+	be, ok := e.(*ast.BinaryExpr)
+	if !ok {
+		return nil, false, false
+	}
+	constOf := func(x ast.Expr) (int64, bool) {
+		tv, ok := info.Types[x]
+		if !ok || tv.Value == nil || tv.Value.Kind() != constant.Int {
+			return 0, false
+		}
+		return constant.Int64Val(tv.Value)
+	}
+	op := be.Op
+	l, r := be.X, be.Y
+	lo, isLen := lengthExpr(info, resolve(l))
+	if !isLen {
+		lo, isLen = lengthExpr(info, resolve(r))
+		if !isLen {
+			return nil, false, false
+		}
+		l, r = r, l
+		switch op {
+		case token.LSS:
+			op = token.GTR
+		case token.GTR:
+			op = token.LSS
+		case token.LEQ:
+			op = token.GEQ
+		case token.GEQ:
+			op = token.LEQ
+		}
+	}
+	k, ok := constOf(r)
+	if !ok {
+		return nil, false, false
+	}
+	if !truth {
+		switch op {
+		case token.EQL:
+			op = token.NEQ
+		case token.NEQ:
+			op = token.EQL
+		case token.LSS:
+			op = token.GEQ
+		case token.GEQ:
+			op = token.LSS
+		case token.GTR:
+			op = token.LEQ
+		case token.LEQ:
+			op = token.GTR
+		default:
+			return nil, false, false
+		}
+	}
+	switch op {
+	case token.EQL:
+		return lo, k >= 1, k == 0
+	case token.NEQ:
+		return lo, k == 0, false
+	case token.GTR:
+		return lo, k >= 0, false
+	case token.GEQ:
+		return lo, k >= 1, false
+	case token.LSS:
+		return lo, false, k <= 1
+	case token.LEQ:
+		return lo, false, k <= 0
+	}
+	return nil, false, false
+}
